@@ -17,6 +17,7 @@ SE = "miasm/ir/symbexec.py"
 LEVEL_TEXT = ("Rules over cst_propag.py and SymbolicState.merge: accepted element kinds of the constant predicate, "
               "intersection-and-equality shape of merge, rewrite-before-execute ordering, merge-on-join. Necessary "
               "conditions; propagation results are not evaluated.")
+LEVEL_TEXT += ' Also: the end-of-block state is handed to every possible destination that is not a memory cell (path obligation).'
 ASSUMPTIONS = ["CPython ast"]
 
 
